@@ -249,16 +249,26 @@ def run_concrete_twin(desc, M):
     pcard = [6, 6, 6, 6] if big else [2, 3]
     pars = [f"p{i}" for i in range(len(pcard))]
     m = BayesianNetwork([(p, "child") for p in pars])
-    for p, k in zip(pars, pcard):
+    tiny = [1e-05, 1e-07, 1e-12, 2.5e-07, 1e-09, 3e-10]
+    for pi, (p, k) in enumerate(zip(pars, pcard)):
         w = rng.random(k) + 0.1
-        m.add_cpds(TabularCPD(p, k, (w / w.sum()).reshape(k, 1), state_names={p: [f"{p}_s{i}" for i in range(k)]}))
+        w = w / w.sum()
+        if pi < 2:
+            # "round" tiny probabilities whose repr has an exponent but no decimal point (1e-05, 1e-12, ...), last in the list
+            t = tiny[(v + pi) % len(tiny)]
+            w = np.array([(1.0 - t) / (k - 1)] * (k - 1) + [t])
+            if pi == 1:
+                w = w[::-1].copy()
+        m.add_cpds(TabularCPD(p, k, w.reshape(k, 1), state_names={p: [f"{p}_s{i}" for i in range(k)]}))
     ncol = int(np.prod(pcard))
     tab = rng.random((3, ncol)) + 0.05
-    if v % 2 == 0:
-        tab[0, 0] = 1e-12
-        tab[1, 1] = 0.0
-        tab[:, 2] = [1.0, 0.0, 0.0]
     tab = tab / tab.sum(axis=0)
+    if v % 2 == 0:
+        tab[:, 0] = [1e-12, 0.5, 0.5 - 1e-12]
+        tab[:, 1] = [0.25, 0.0, 0.75]
+        tab[:, 2] = [1.0, 0.0, 0.0]
+        tab[:, 3] = [0.7, 0.2, 0.1]
+        tab[:, 4] = [1e-05, 0.99999 - 1e-07, 1e-07]
     order = pars[::-1] if v % 2 else pars
     sn = {"child": ["lo", "mid", "hi"], **{p: [f"{p}_s{i}" for i in range(k)] for p, k in zip(pars, pcard)}}
     cpd0 = TabularCPD("child", 3, tab, evidence=pars, evidence_card=pcard, state_names=sn)
@@ -272,10 +282,20 @@ def run_concrete_twin(desc, M):
             s = XMLBIFWriter(m).__str__()
             m2 = XMLBIFReader(string=s.decode() if isinstance(s, bytes) else s).get_model()
         M.check(set(m2.nodes()) == set(m.nodes()) and set(m2.edges()) == set(m.edges()), f"{fmt}: same variables and edges")
-        c2 = m2.get_cpds("child").to_factor()
-        c1 = m.get_cpds("child").to_factor()
         worst = 0.0
-        for st in itertools.product(*[sn[x] for x in c1.variables]):
-            a = dict(zip(c1.variables, st))
-            worst = max(worst, abs(float(c1.get_value(**a)) - float(c2.get_value(**{k: str(s_) for k, s_ in a.items()}))))
-        M.check(worst <= 1e-15 + 1e-12, f"{fmt}: probability of every named assignment is unchanged (magnitudes 1e-12..1, {ncol * 3} entries)", detail=f"max abs diff {worst}")
+        nbad = 0
+        first = ""
+        for var in ["child"] + pars:
+            c2 = m2.get_cpds(var).to_factor()
+            c1 = m.get_cpds(var).to_factor()
+            for st in itertools.product(*[sn[x] for x in c1.variables]):
+                a = dict(zip(c1.variables, st))
+                x1 = float(c1.get_value(**a))
+                x2 = float(c2.get_value(**{k: str(s_) for k, s_ in a.items()}))
+                if x1 != x2:
+                    nbad += 1
+                    first = first or f"{var} {a}: wrote {x1!r} read {x2!r}"
+                worst = max(worst, abs(x1 - x2))
+        # BIF and XMLBIF print Python's shortest round-trip repr of every float: the round trip is EXACT
+        M.check(nbad == 0, f"{fmt}: probability of every named assignment is exactly unchanged (magnitudes 1e-12..1, exact 0/1, {ncol * 3} entries)",
+                detail=f"{nbad} entries differ, max abs diff {worst}; first: {first}")
